@@ -206,6 +206,15 @@ def node_raises(ctx, fref, cnode, stacks):
         return out
     for call in calls_at(cnode):
         targets, _ = eff.resolve(fref, call)
+        if not targets and isinstance(call.func, ast.Attribute) and \
+                call.func.attr == "apply" and \
+                root_name(call.func) != "super" and \
+                not eff.handlers_catch(stack, TERR):
+            # a transformation object of statically unknown class: its
+            # apply() validates first and may refuse
+            out.append(f"{ast.unparse(call.func)}() is a transformation's "
+                       f"apply and may raise TransformationError")
+            continue
         for tgt in targets:
             hit = [e for e in eff.may_raise(tgt)
                    if eff.exc_is_a(e, TERR) and
